@@ -155,3 +155,118 @@ def cleanup(d):
 
 def chunks(flat, k):
     return [flat[i:i + k] for i in range(0, len(flat), k)]
+
+
+# ------------------------------------------------------------------------------ model driver
+
+DSETS = ["/Info/AxisValues_t", "/BunchProfile/data", "/BunchLength/data", "/BunchPosition/data",
+         "/EnergyProfile/data", "/EnergySpread/data", "/EnergyAverage/data", "/BunchPopulation/data",
+         "/CSR/Spectrum/data", "/CSR/Intensity/data", "/WakePotential/data", "/Particles/data",
+         "/PhaseSpace/axis0", "/PhaseSpace/data", "/BunchProfile/padded", "/WakePotential/padded"]
+# index = Records.dset_id
+
+
+def zt(i):
+    return ("-%x" % -i) if i < 0 else "%x" % i
+
+
+def pz(t):
+    return int(t, 16)
+
+
+def run_model(text, timeout=600):
+    import vp_coq
+    r = subprocess.run([vp_coq.model_path("h5")], input=text, capture_output=True, text=True, timeout=timeout)
+    if r.returncode != 0:
+        raise RuntimeError("model_h5: " + r.stderr[-500:])
+    res, cur = {}, None
+    for line in r.stdout.splitlines():
+        p = line.split()
+        if not p:
+            continue
+        if p[0] == "case":
+            cur = {}
+            res[p[1]] = cur
+        elif p[0] == "end":
+            cur = None
+        elif cur is not None:
+            if p[0] in ("tags", "inner", "rowsok"):
+                cur.setdefault(p[0], {})[pz(p[1])] = p[2:]
+            else:
+                cur[p[0]] = p[1:]
+    return res
+
+
+# ------------------------------------------------------------------------------ main.cpp in float64/float32
+
+C_LIGHT = 2.99792458e8
+EPS0 = 8.854187817e-12
+QE = 1.602e-19
+ME = 510998.9
+
+
+def pow2ceil(v):
+    p = 1
+    while p < v:
+        p *= 2
+    return p
+
+
+def derive(P, currents):
+    """mirror of main.cpp 179-320 on the parameters stored under /Info/Parameters (P: name ->
+    python number holding the exact stored value) and the bunch currents of the configuration
+    (BunchCurrent is not stored in the file).  float64 throughout, float32 where the C++ is."""
+    d = {}
+    n = P["GridSize"]
+    pq = P["PhaseSpaceSize"]                      # float
+    d["qcenter"] = f32(f32(-P["PhaseSpaceShiftX"] * pq) / f32(n - 1))
+    d["pcenter"] = f32(f32(-P["PhaseSpaceShiftY"] * pq) / f32(n - 1))
+    pqhalf = f32(pq / 2)
+    d["qmin"], d["qmax"] = f32(d["qcenter"] - pqhalf), f32(d["qcenter"] + pqhalf)
+    d["pmin"], d["pmax"] = f32(d["pcenter"] - pqhalf), f32(d["pcenter"] + pqhalf)
+    sE, E0 = P["BeamEnergySpread"], P["BeamEnergy"]
+    dE = sE * E0
+    f_rev = float(P["RevolutionFrequency"])
+    R_bend = P["BendingRadius"] if P["BendingRadius"] > 0 else C_LIGHT / (2 * math.pi * f_rev)
+    H = float(P["HarmonicNumber"])
+    V_RF = P["AcceleratingVoltage"]
+    gamma = E0 / ME
+    V0 = QE * gamma ** 4 / (3 * EPS0 * R_bend)
+    V_eff = math.sqrt(V_RF * V_RF - V0 * V0)
+    fs = float(P["SynchrotronFrequency"])
+    if fs == 0.0:
+        fs = f_rev * math.sqrt(float(P["alpha0"]) * H * V_eff / (2 * math.pi * E0))
+    bl = C_LIGHT * dE / H / f_rev ** 2.0 / V_eff * fs
+    nbuckets = len(currents)
+    Ib = 0.0
+    for c in currents:
+        if f32(c) > 0:
+            Ib += f32(c)
+    steps = float(max(P["StepsPerTs"], 1)) if P["StepsPerRevolution"] == 0 else P["StepsPerRevolution"] * f_rev / fs
+    dt = 1.0 / (fs * steps)
+    spacing_ps = (1.0 / (f_rev * H)) * C_LIGHT / bl / pq
+    padding = max(P["padding"], 1.0)
+    padded = pow2ceil(int(math.ceil(n * padding)))      # RoundPadding default 1
+    spaced = pow2ceil(int(math.ceil(n * nbuckets * spacing_ps)))
+    d.update(dE=dE, f_rev=f_rev, H=H, V_eff=V_eff, fs=fs, bl=bl, Ib=Ib, Qb=Ib / f_rev, steps=steps, dt=dt,
+             revolutionpart=f_rev * dt, t_sync=1.0 / fs, padded=padded, spaced=spaced, nbuckets=nbuckets,
+             spacing_bins=int(round(n * spacing_ps)), E0=E0, sE=sE)
+    return d
+
+
+def ruler32(n, lo, hi):
+    """Ruler<float>: delta = (max-min)/float(steps-1); data[i] = min + float(i)*delta, all in binary32"""
+    delta = f32(f32(hi - lo) / f32(n - 1))
+    return [f32(lo + f32(f32(i) * delta)) for i in range(n)], delta
+
+
+def simpson32(n, delta):
+    """PhaseSpace::simpsonWeights in binary32"""
+    h03 = f32(delta / f32(3.0))
+    ws = [h03]
+    dc = 1.0
+    for x in range(1, n - 1):
+        ws.append(f32(h03 * f32(3.0 + dc)))
+        dc = -dc
+    ws.append(h03)
+    return ws[:n] if n > 1 else [h03]
